@@ -16,6 +16,8 @@ import MetapypeModel.Model.Evaluate
 import MetapypeModel.Model.Json
 import MetapypeModel.Model.Xml
 import MetapypeModel.Model.Import
+import MetapypeModel.Model.NsResolve
+import MetapypeModel.Model.XmlValue
 import MetapypeModel.Gen.Rules
 import MetapypeModel.Gen.Facts
 /-
@@ -98,6 +100,15 @@ partial def xnJson : XD → Json
                             .arr (ks.map xnJson).toArray]
   | .text s => .arr #[.str "t", .str (String.ofList s)]
   | .other s => .arr #[.str "o", .str s]
+
+partial def xnOut : XN → Json
+  | .elem ln pfx ns attrib text tail kids =>
+      .arr #[.str "e", .str ln, (match pfx with | some p => .str p | none => .null),
+             .arr (ns.map (fun kv => Json.arr #[.str kv.1, .str kv.2])).toArray,
+             .arr (attrib.map (fun kv => Json.arr #[.str kv.1, .str kv.2])).toArray,
+             (match text with | some t => .str t | none => .null), (match tail with | some t => .str t | none => .null),
+             .arr (kids.map xnOut).toArray]
+  | .comment tl => .arr #[.str "c", (match tl with | some t => .str t | none => .null)]
 
 def evJson : Ev → Json
   | .err k => .str k.toString
@@ -246,6 +257,9 @@ def handle (j : Json) : Json :=
                     ("values", match allowedAttributeValues r.attrs a with
                                | some vs => .arr (vs.map Json.str).toArray | none => .str "Exception")]
   | some "xnorm" => xnJson (xmlNormalize Gen.xsltProtected (getXD (fld j "doc")))
+  | some "nsresolve" =>
+      -- the infoset lxml is expected to hand over for the general exporter's output: denoted value, then namespace processing
+      xnOut (resolveX [] (xElemG (getTree (fld j "tree")) none 0) [])
   | some "synth" =>
       -- a rule that is not in the table: children spec given in the rules.json shape
       match specOfJson (fld j "spec") with
